@@ -160,7 +160,7 @@ class Ctx:
     # ------------------------------------------------------------------ TLC
     def tlc(self, model, cfg=None, workers=8, simulate=None, replay=None, env=None, timeout=3600, heap="12g",
             case_timeout_ms=20000, required_actions=(), label=None, must_pass=True, exhaustive=True, coverage=True,
-            extra_vh=None):
+            extra_vh=None, required_tags=()):
         """Runs TLC on spec/<model>.tla with spec/<cfg>.cfg. With replay=<family>, TLC's CASE lines are piped into
         `vh replay <family>` and every case is executed against the real code."""
         cfg = cfg or model
@@ -236,6 +236,10 @@ class Ctx:
             run["replay_failed"] = summary["failed"]
             run["distinct_inputs"] = summary["distinct"]
             run["replay_wall_s"] = round(summary["wall_s"], 2)
+            run["tags"] = summary.get("tags", {})
+            for tag in required_tags:
+                if not summary.get("tags", {}).get(tag):
+                    raise ToolError("vacuity: no replayed case of %s carries the tag %s" % (label, tag))
             if summary["cases_read"] == 0:
                 raise ToolError("no case was generated by %s" % label)
             if summary["unparsed_case_lines"]:
